@@ -1063,6 +1063,14 @@ RUNS = [
     ("protocol.ws_stream", "WSStream", {"http_version": "2"}, ws_inputs),
 ]
 
+THOROUGH_RUNS = [
+    ("protocol.http_stream", "HTTPStream", {"http_version": "1.0", "method": "GET"}, http_inputs),
+    ("protocol.http_stream", "HTTPStream", {"http_version": "1.1", "method": "HEAD"}, http_inputs),
+    ("protocol.http_stream", "HTTPStream", {"http_version": "2", "method": "GET", "te": False}, http_inputs),
+    ("protocol.http_stream", "HTTPStream", {"http_version": "3", "method": "GET", "te": True}, http_inputs),
+    ("protocol.ws_stream", "WSStream", {"http_version": "3"}, ws_inputs),
+]
+
 _CACHE: Dict[str, Any] = {}
 
 # invariant id -> (properties it is reported under, rule id per property)
@@ -1102,12 +1110,12 @@ RULE_TEXT = {
 }
 
 
-def analyse(repo: Repo):
-    key = repo.digest()
+def analyse(repo: Repo, tier: str = "quick"):
+    key = repo.digest() + tier
     if key in _CACHE:
         return _CACHE[key]
     results = []
-    for module, cls, params, inputs in RUNS:
+    for module, cls, params, inputs in RUNS + (THOROUGH_RUNS if tier == "thorough" else []):
         ex = Explorer(repo, module, cls, params, inputs)
         ex.explore()
         results.append(ex)
@@ -1116,7 +1124,7 @@ def analyse(repo: Repo):
 
 
 def run_rules(ctx: Ctx, prop: str) -> None:
-    results = analyse(ctx.repo)
+    results = analyse(ctx.repo, ctx.tier)
     wanted = {inv: m[prop] for inv, m in RULE_MAP.items() if prop in m}
     for rid in sorted(set(wanted.values())):
         if rid not in ctx.rules:
